@@ -7,7 +7,7 @@
     nodetest_table_sound axis_table_sound pred_eval_sound pred_outcome_sound
     substring_not_xpath ne_absent_not_xpath step_matches_eq_xp parser_rejects_outside
     select_eq_xp_step select_eq_xp_chain select_eq_xp_childpath select_eq_xp_union
-    select_eq_xp_nonpositional select_eq_xp_union_nonpositional select_eq_xp_nonpositional_default select_eq_xp_attribute select_eq_xp_attribute_step
+    select_eq_xp_nonpositional select_eq_xp_union_nonpositional select_eq_xp_nonpositional_default select_eq_xp_kmp select_eq_xp_attribute select_eq_xp_attribute_step
     select_eq_xp_chain_attribute select_eq_xp_chain_attribute_default
     pattern_matches_eq_xp
     parser_accepts_subset_partial parser_accepts_steps_partial
@@ -28,6 +28,7 @@ import Genshi.Lemmas.PathUnion
 import Genshi.Lemmas.PathNonPos
 import Genshi.Lemmas.PathAttr
 import Genshi.Lemmas.PathSimpleAttr
+import Genshi.Lemmas.PathKmpRun
 namespace Genshi.Props.C05
 open Genshi Genshi.Path
 
@@ -739,6 +740,64 @@ theorem attrFlag_of_isAttrName (t : NodeTest) (h : t.isAttrName = true) : t.attr
   | localName b _ => cases b <;> simp_all [NodeTest.isAttrName, NodeTest.attrFlag]
   | qname b _ _ => cases b <;> simp_all [NodeTest.isAttrName, NodeTest.attrFlag]
   | _ => simp [NodeTest.isAttrName] at h
+
+/-! ## SimplePathStrategy on the fragment it matches with KMP -/
+
+theorem stepsOk_fragPath (ax0 : Axis) (hax : ax0 = .descendant ∨ ax0 = .descendantOrSelf)
+    (tests : List NodeTest) (hne : tests ≠ []) (hsimple : ∀ t ∈ tests, Kmp.simpleT t = true) (ns : NsMap) (vs : Vars) :
+    StepsOk ns vs (Kmp.fragPath ax0 tests) := by
+  have hmem : ∀ s ∈ Kmp.fragPath ax0 tests, (s.axis = ax0 ∨ s.axis = .child) ∧ s.test ∈ tests ∧ s.preds = [] := by
+    intro s hs
+    cases tests with
+    | nil => simp [Kmp.fragPath] at hs
+    | cons t0 ts =>
+      simp only [Kmp.fragPath, childChain, List.mem_cons, List.mem_map] at hs
+      rcases hs with rfl | ⟨t, ht, rfl⟩
+      · exact ⟨Or.inl rfl, by simp, rfl⟩
+      · exact ⟨Or.inr rfl, by simp [ht], rfl⟩
+  refine ⟨?_, ?_, ?_, ?_, ?_⟩
+  · cases tests with
+    | nil => exact absurd rfl hne
+    | cons t0 ts => simp [Kmp.fragPath]
+  · intro s hs
+    rcases (hmem s hs).1 with h | h <;> rw [h]
+    · rcases hax with rfl | rfl <;> simp
+    · simp
+  · intro s hs
+    have := hsimple s.test (hmem s hs).2.1
+    rcases Kmp.simpleT_cases s.test this with ⟨n, h⟩ | h | h <;> rw [h] <;> simp [NodeTest.elemWf]
+  · intro s hs q hq
+    rw [(hmem s hs).2.2] at hq; simp at hq
+  · intro s hs q hq
+    rw [(hmem s hs).2.2] at hq; simp at hq
+
+/-- **select_eq_xp** for `descendant::t1/…/tn` and a leading `//t1/…/tn` (name, `text()`,
+    `comment()` tests) under SimplePathStrategy — the strategy `Path.__init__` picks for these
+    paths: by `simple_eq_generic_kmp`'s core (`Kmp.kmp_runs`: the KMP matcher reports what
+    GenericStrategy reports) and `select_eq_xp_nonpositional`. -/
+theorem select_eq_xp_kmp (ax0 : Axis) (hax : ax0 = .descendant ∨ ax0 = .descendantOrSelf)
+    (tests : List NodeTest) (hne : tests ≠ []) (hsimple : ∀ t ∈ tests, Kmp.simpleT t = true)
+    (ns : NsMap) (vs : Vars)
+    (tag : QName) (attrs : AttrList) (kids : List Node)
+    (hcl : (Node.elem tag attrs kids).clean = true)
+    (hnodes : AllNodes (NodeFor (Kmp.fragPath ax0 tests) ns vs) (.elem tag attrs kids)) :
+    select [Kmp.fragPath ax0 tests] ns vs (Node.elem tag attrs kids).flatten (some .simple)
+      = Ref.xpSelect [Kmp.fragPath ax0 tests] ns (toXVars vs) (.elem tag attrs kids) := by
+  have hkcl : cleanList kids = true := by simpa [Node.clean] using hcl
+  have hg := select_eq_xp_nonpositional (Kmp.fragPath ax0 tests) ns vs
+    (stepsOk_fragPath ax0 hax tests hne hsimple ns vs) tag attrs kids hcl hnodes
+  rw [← hg]
+  unfold select
+  simp only [pathTest, List.map_cons, List.map_nil, mkMatcher]
+  rw [selectGo_eq_emitV, selectGo_eq_emitV, runTest_simple', runTest_genericL,
+    Kmp.kmp_runs ns vs ax0 hax tests hne (Kmp.simple_of_mem tests hsimple) tag attrs kids hkcl]
+
+-- non-vacuity: `//a/b` on <a><a><b/></a><b/></a> selects both <b/>
+example : select [Kmp.fragPath .descendantOrSelf [.localName false ['a'], .localName false ['b']]] [] []
+    (Node.elem ⟨[], ['a']⟩ [] [Node.elem ⟨[], ['a']⟩ [] [Node.elem ⟨[], ['b']⟩ [] []],
+       Node.elem ⟨[], ['b']⟩ [] []]).flatten
+    = [.ev (.start ⟨[], ['b']⟩ []), .ev (.end_ ⟨[], ['b']⟩), .ev (.start ⟨[], ['b']⟩ []), .ev (.end_ ⟨[], ['b']⟩)] := by
+  decide +kernel
 
 /-! ## Stage 3 for attributes: paths that end in an attribute step -/
 
